@@ -38,7 +38,7 @@ ASSUMPTIONS = [
     'cross-lexicon row order and the shared ILI inventory are not compared (logical dump)',
 ]
 
-_BASE = dict(allow_no_pos_synset=False, allow_frame_without_id=False)
+_BASE = dict(allow_no_pos_synset=False, allow_frame_without_id=False, lex_frame_senses=True)
 
 
 @st.composite
